@@ -18,7 +18,7 @@ ASSUMPTIONS = ["ground truth by construction + reference multiset equality", "PY
 SUMMARY_KEYS = ["pairs", "equal_text_differs", "near_misses"]
 CRASH_IS_VIOLATION = False
 KINDS = ["permute", "reinsert", "reinsert", "rename", "duplicate", "drop", "move", "swap", "comma", "space", "multiplicity",
-         "int-vs-str", "other", "hash-twin"]
+         "int-vs-str", "other", "hash-twin", "empty-bucket", "empty-bucket-both"]
 
 
 def plan(tier, seed):
@@ -100,6 +100,20 @@ def derive(case):
         # A holds one element named "x,y" ("x y"), B holds two elements x and y (resp. one element "xy")
         A = [[[joined], ["w"]]] + [[list(map(str, b)) for b in r] for r in A if False]
         B = [[["x", "y"], ["w"]]] if kind == "comma" else [[["xy"], ["w"]]]
+    elif kind in ("empty-bucket", "empty-bucket-both"):
+        # rankings may hold empty buckets (the constructor accepts them): one more, one fewer or one elsewhere makes another
+        # ranking ("same buckets in the same order"); the same empty bucket on both sides does not
+        i = rng.randrange(len(B))
+        pos = rng.randint(0, len(B[i]))
+        B[i] = B[i][:pos] + [[]] + B[i][pos:]
+        if kind == "empty-bucket-both":
+            A[i] = A[i][:pos] + [[]] + A[i][pos:]
+            if rng.random() < 0.5:
+                rng.shuffle(B)
+        elif rng.random() < 0.3:
+            # both hold one empty bucket, at different places
+            pos2 = (pos + 1 + rng.randrange(max(1, len(A[i])))) % (len(A[i]) + 1)
+            A[i] = A[i][:pos2] + [[]] + A[i][pos2:]
     elif kind == "int-vs-str":
         B = [[[str(e) for e in b] for b in r] for r in B]
     elif kind == "hash-twin":
@@ -277,6 +291,7 @@ def reach(counters, tier, info):
                             ("near misses: one element moved", "near_miss:move", 100 * k),
                             ("near misses: names with a comma", "near_miss:comma", 100 * k),
                             ("near misses: names with a space", "near_miss:space", 100 * k),
+                            ("near misses: an empty bucket more / fewer / elsewhere", "near_miss:empty-bucket", 100 * k),
                             ("single-ranking pairs (agreement with Ranking equality)", "single_ranking_pairs", 300 * k),
                             ("datasets compared again after an in-place mutation", "compared_again_after_in_place_mutation", 400 * k),
                             ("datasets compared again after a refused mutation (rankings unchanged)",
